@@ -5,7 +5,7 @@
  *  gate   VERIF_GATE=<unix sock>  every intercepted call is announced ("W <json>") and performed only
  *                                 when the controller answers; events go to the controller ("E <json>")
  *  fault  VERIF_FAULT=<k>:<errno|short> [VERIF_FAULT_ROLE=<role>]   k-th eligible call fails
- *  kill   VERIF_KILL=<k> [VERIF_KILL_ROLE]                          process dies before k-th eligible call
+ *  kill   VERIF_KILL=<k> [VERIF_KILL_ROLE] [VERIF_KILL_SIG=<n>]      process dies (gets signal n) before k-th eligible call
  *  world  VERIF_CLOCK=<file with decimal seconds> virtual time(), virtual file times
  *         VERIF_IDS=<file>        passwd/group database: "u name uid gid home" / "g name gid"
  *         VERIF_READCAP=<n>       read() on descriptor 0 returns at most n bytes
@@ -50,7 +50,7 @@ static long readcap = 0;
 static long fault_k = -1; static char fault_what[32]; static long kill_k = -1;
 static long ncalls = 0;       /* eligible calls so far in this process */
 static long seq = 0;
-static int busy = 0;          /* re-entrancy guard */
+static volatile int busy = 0; /* re-entrancy guard (volatile: signal handlers of the program run inside the shim, see VERIF_KILL_SIG) */
 
 static int (*r_open)(const char *, int, ...);
 static int (*r_close)(int);
@@ -205,7 +205,13 @@ static struct jb wj;
 static int decide(struct jb *want, long *shortn)
 {
   ncalls++;
-  if (kill_k >= 0 && ncalls == kill_k) { kill(getpid(), SIGKILL); for (;;) pause(); }
+  if (kill_k >= 0 && ncalls == kill_k) {
+    /* VERIF_KILL_SIG: another signal than KILL (e.g. 14: the program's own timer expiring at this instant); its handler runs,
+     * and if it returns the program goes on */
+    const char *ks = getenv("VERIF_KILL_SIG");
+    if (ks && atoi(ks) != SIGKILL) { busy = 0; kill(getpid(), atoi(ks)); busy = 1; }
+    else { kill(getpid(), SIGKILL); for (;;) pause(); }
+  }
   if (fault_k >= 0 && ncalls == fault_k) {
     if (!strncmp(fault_what, "short", 5)) { *shortn = atol(fault_what + 5); return -2; }
     return atoi(fault_what);
